@@ -902,6 +902,7 @@ handle_ack:
 		hmac_md5_update(&hctx, pkt_req->authenticator, MD5_HASH_SIZE);
 		break;
 	default:
+		hmac_md5_final(&hctx, msg_authenticator); /* Clear HMAC context. */
 		return (EBADMSG);
 	}
 	/* Process attr. */
